@@ -23,6 +23,8 @@ a peer between its `Snapshot()` and the matching `Persist()` (see `prefix_inv_fa
   catch up again.
 * `tracker_handoff`, `no_other_calls` — an applied entry hands exactly its pin to the tracker, with the
   stored cid, type, depth, allocations (and mode when mode and depth agree); nothing else does.
+* `handoff_order_full` is false (`handoff_order_fails`: the calls are dispatched asynchronously, K29);
+  `handoff_order_partial` when the entries in flight together concern different cids.
 * `decode_total` is false (`decode_total_fails`); `decode_total_partial` for pins without origins;
   `caught_up_exact_fails`: one such entry and a caught-up peer serves an error.
 -/
@@ -219,6 +221,27 @@ theorem no_other_calls (ops : List Op) (r : Replica) (src : Option Snap) (e : Ev
     (stepR ops r src e).2.calls ≠ [] → e = .apply ∧ (stepR ops r src e).2.res = .ok :=
   no_other_calls_core ops r src e
 
+/-! ### order of arrival at the tracker -/
+
+/-- the full statement: whatever order the asynchronous calls arrive in, every cid sees its
+    instructions in commit order -/
+def handoff_order_full : Prop :=
+  ∀ (dispatched arrived : List Call), arrivalAllowed dispatched arrived = true →
+    ∀ c, perCid c arrived = perCid c dispatched
+
+/-- false: pin c then unpin c applied back to back may arrive as Untrack, Track (known finding K29) -/
+theorem handoff_order_fails : ¬ handoff_order_full := by
+  intro h
+  exact absurd (h [.track (pinCid 1), .untrack (pinCid 1)] [.untrack (pinCid 1), .track (pinCid 1)] (by decide) 1)
+    (by decide)
+
+/-- true when no two entries in flight together concern the same cid -/
+theorem handoff_order_partial (dispatched arrived : List Call) (h : arrivalAllowed dispatched arrived = true)
+    (hn : (dispatched.map Call.cid).Nodup) : ∀ c, perCid c arrived = perCid c dispatched := by
+  intro c
+  unfold arrivalAllowed at h
+  exact perCid_of_perm (List.isPerm_iff.1 h) hn c
+
 /-! ### the Spec clauses on the model's own observations -/
 
 /-- For every history without origins and every schedule with point-in-time snapshots, the observations
@@ -233,7 +256,8 @@ theorem model_holds_partial (ops : List Op) (n : Nat) (evs : List (Nat × Ev)) (
   unfold holds clauses
   simp only [List.all_cons, List.all_nil, Bool.and_true, Bool.and_eq_true, List.all_eq_true]
   exact ⟨fun o ho => (h o ho).1, fun o ho => (h o ho).2.1, fun o ho => (h o ho).2.2.1,
-         fun o ho => (h o ho).2.2.2.1, fun o ho => (h o ho).2.2.2.2.1, fun o ho => (h o ho).2.2.2.2.2⟩
+         fun o ho => (h o ho).2.2.2.1, fun o ho => (h o ho).2.2.2.2.1, fun o ho => (h o ho).2.2.2.2.2.2,
+         fun o ho => (h o ho).2.2.2.2.2.1⟩
 
 example : holds [Op.pin (pinCid 1), .unpin (pinCid 1), .pin (pinCid 2)]
     (modelTrace [Op.pin (pinCid 1), .unpin (pinCid 1), .pin (pinCid 2)] (initSys 2)
